@@ -21,6 +21,8 @@ func propC04(c *Ctx) {
 	defer func() {
 		rfr := c.Rule("full-read", "every direct Read on an io.Reader in the decoder uses the byte count returned (a reader may deliver the stream in pieces)", 1)
 		ruleFullRead(c, rfr)
+		rsle := c.Rule("search-last-le", "a decoded file set finds the file of a position as the last file whose base is <= the position (strict predicate in the binary search): positions of errors survive the round trip", 1)
+		ruleSearchLastLE(c, rsle)
 		rdf := c.Rule("decode-fresh", "no decoder builds its result in storage read from its receiver: values decoded one after the other never share a backing array", 10)
 		ruleDecodeFresh(c, rdf)
 		rai := c.Rule("assert-inhabited", "every type assertion of the encoder to a concrete repository type targets a type of which values are placed into interfaces somewhere: an assertion to the encoder's own layout-twin of a uGO type can never succeed", 5)
